@@ -183,6 +183,57 @@ def roundtrip_witness(res: "TP", lit_f: List[float], lit_i: List[float]):
     return None
 
 
+def eval_tp(res: "TP", lit: List[float], sn: Fraction, cn: Fraction, phi: Fraction) -> Optional[Fraction]:
+    """the extracted polynomial at given values of s, c, phi and the literal table, in exact rational arithmetic"""
+    tot = Fraction(0)
+    for k, v in res.t.items():
+        m = Fraction(v)
+        for sym, p in k:
+            if sym == "s":
+                m *= sn ** p
+            elif sym == "c":
+                m *= cn ** p
+            elif sym == "phi":
+                m *= phi ** p
+            elif sym.startswith("C"):
+                i = int(sym[1:])
+                if i >= len(lit):
+                    return None
+                m *= Fraction(lit[i]) ** p
+            else:
+                return None
+        tot += m
+    return tot
+
+
+def sqrt_cos_witness(ret: "TP", lit_f: List[float], lit_i: List[float]):
+    """C15.11: the evaluator takes cos(phi) as sqrt(1 - sin(phi)**2).  Near a pole sin(phi)**2 is within a few ulp of 1 and the
+    subtraction keeps only the rounding error of the square: the absolute error of the 'cosine' grows like 1e-16 / cos(phi).
+    The checker evaluates ITS OWN extracted polynomial (exact rational arithmetic) at the doubles the code would hand to it --
+    s = sin(phi) and c = sqrt(1 - s*s), both computed with the checker's math library -- for forward and then inverse, and
+    compares the round trip with the 1e-12 clause; the same computation with c = cos(phi) must stay within the clause, so that the
+    difference is the substitution's and not the series'.  -> (phi, error with sqrt, error with cos) or None."""
+    def once(lit, x, alt: bool) -> Optional[float]:
+        sn = math.sin(x)
+        cn = math.sqrt(1.0 - sn * sn) if alt else math.cos(x)
+        v = eval_tp(ret, lit, Fraction(sn), Fraction(cn), Fraction(x))
+        return None if v is None else float(v)
+    worst = None
+    for k in range(4, 10):
+        for m in (1.0, 1.82, 3.3, 5.7):
+            phi = math.pi / 2 - m * 10.0 ** -k
+            xi_a, xi_t = once(lit_f, phi, True), once(lit_f, phi, False)
+            if xi_a is None or xi_t is None:
+                return None
+            back_a, back_t = once(lit_i, xi_a, True), once(lit_i, xi_t, False)
+            if back_a is None or back_t is None:
+                return None
+            err_a, err_t = abs(back_a - phi), abs(back_t - phi)
+            if err_t <= 5e-13 and err_a > 1e-12 + 1e-13 and (worst is None or err_a > worst[1]):
+                worst = (phi, err_a, err_t)
+    return worst
+
+
 def residual_witness(res: "TP", lit: List[float]):
     """a latitude (given by a rational point on the unit circle) at which |res| > 1e-10, evaluated exactly"""
     for sn, cn in ((Fraction(3, 5), Fraction(4, 5)), (Fraction(5, 13), Fraction(12, 13)), (Fraction(8, 17), Fraction(15, 17)),
@@ -446,6 +497,15 @@ class SeriesBody:
                 return TP.sym("c"), "even"
             if fn == "cast" and len(e.args) == 2:
                 return self.ev(e.args[1])
+            if fn in ("math.sqrt", "sqrt") and len(e.args) == 1 and not e.keywords:
+                # sqrt(1 - sin(phi)**2): on the latitude domain this IS cos(phi) -- as a real number.  The normal form treats it as c;
+                # what the subtraction does in floating point near the poles is judged separately (C15.11)
+                saved_problem = self.problem
+                inner = self.ev(e.args[0])
+                if inner is not None and inner[0] == TP.sym("c") * TP.sym("c"):
+                    self.cos_via_sqrt = core.src(e)
+                    return TP.sym("c"), "even"
+                self.problem = saved_problem
             self.problem = f"call `{core.src(e)[:50]}` is not sin(phi)/cos(phi)"
             return None
         if isinstance(e, ast.UnaryOp) and isinstance(e.op, ast.USub):
@@ -628,6 +688,16 @@ def run(ctx):
         else:
             tables_ok = False
             pending.append((name, lit, w, exact, worst, total))
+    if getattr(sb, "cos_via_sqrt", None) and sb.ret is not None and not sb.problem and g2a and a2g:
+        wit = sqrt_cos_witness(sb.ret, g2a, a2g)
+        if wit is not None:
+            ctx.bad("C15.11", f"the evaluator takes cos(phi) as `{sb.cos_via_sqrt}`", where,
+                    f"near a pole the subtraction cancels: at phi = pi/2 - {math.pi / 2 - wit[0]:.3g} rad, inverse(forward(phi)) computed with this 'cosine' misses phi by "
+                    f"{wit[1]:.3g} rad (clause: 1e-12), with math.cos(phi) in its place by {wit[2]:.1g} rad -- the extracted polynomial evaluated exactly at the doubles "
+                    f"the code would pass")
+        else:
+            ctx.unk("C15.11", f"the evaluator takes cos(phi) as `{sb.cos_via_sqrt}`", where,
+                    "equal to cos(phi) as a real number on the latitude domain; no latitude was found at which the cancellation breaks a clause")
     if pending and len(devs) == 2 and g2a and a2g:
         # is the deviation large enough to break a clause for certain?  E(phi) = sum dev_k sin(2k phi)
         worst_acc, worst_rt = (0.0, 0), (0.0, 0)
